@@ -217,14 +217,22 @@ Qed.
 Definition requests_of (ts : list trial) (add : Z) : Z :=
   Z.of_nat (length ts) + add - Z.of_nat (length (filter (fun t => negb (t_obs_available t) && t_is t TEarlyStopped) ts)).
 
+Definition restart_write (s : sugobj) : write * onfail :=
+  (WSugStatus (s_with_conds (s_st s) (smark_running (ss_conds (s_st s)) CFalse RSugRestart)) (s_rv s), Stop).
+
 Lemma plan_create_shape cf st ts sug add x :
   In x (fst (plan_create cf st ts sug add)) ->
      (sug = None /\ x = (WSugCreate (requests_of ts add), Stop))
   \/ (exists s, sug = Some s /\ (x = (WSugSpec (requests_of ts add) (s_rv s), Stop) \/
-                                exists n, x = (WTrialCreate n, Cont) /\ In n (ss_names (s_st s)))).
+                                exists n, x = (WTrialCreate n, Cont) /\ In n (ss_names (s_st s))))
+  \/ (exists s, sug = Some s /\ x = restart_write s /\ s_is (s_st s) SSucceeded = true /\ c_resume cf = FromVolume).
 Proof.
   unfold plan_create. fold (requests_of ts add). destruct sug as [s|].
-  - destruct (s_is (s_st s) SFailed); [intros []|]. cbn [fst]. intro H. right. exists s. split; [reflexivity|].
+  - destruct (s_is (s_st s) SFailed); [intros []|].
+    destruct (s_is (s_st s) SSucceeded && _) eqn:RS.
+    { cbn [fst]. apply andb_true_iff in RS as [S R]. destruct (s_restarting (s_st s)); [intros []|]. intros [<-|[]].
+      right. right. exists s. repeat split; auto. destruct (c_resume cf); try discriminate; reflexivity. }
+    cbn [fst]. intro H. right. left. exists s. split; [reflexivity|].
     apply in_app_or in H as [H|H].
     + destruct (s_requests s =? requests_of ts add); [destruct H|]. destruct H as [<-|[]]. now left.
     + apply in_map_iff in H as (n&<-&I). right. exists n. split; [reflexivity|].
@@ -233,7 +241,7 @@ Proof.
 Qed.
 
 Lemma plan_create_counts cf st ts sug add : es_counts (snd (plan_create cf st ts sug add)) = es_counts st.
-Proof. unfold plan_create. destruct sug as [s|]; [|reflexivity]. destruct (s_is _ _); reflexivity. Qed.
+Proof. unfold plan_create. destruct sug as [s|]; [|reflexivity]. destruct (s_is _ _); [reflexivity|]. destruct (_ && _); reflexivity. Qed.
 
 Lemma plan_trials_counts cf mx st ts sug : es_counts (snd (plan_trials cf mx st ts sug)) = es_counts st.
 Proof.
@@ -247,11 +255,12 @@ Lemma plan_trials_shape cf mx st ts sug x :
   Z.of_nat (length ts) <= n_pending (es_counts st) + n_running (es_counts st) + completed_count (es_counts st) ->
   0 <= n_pending (es_counts st) + n_running (es_counts st) -> 0 <= completed_count (es_counts st) ->
   x = (WDeleteTrials, Stop) \/
-  exists r, r <= completed_count (es_counts st) + c_par cf /\ (forall m, mx = Some m -> r <= m) /\
+  (exists r, r <= completed_count (es_counts st) + c_par cf /\ (forall m, mx = Some m -> r <= m) /\
             (ts = [] -> r <= c_par cf) /\
      ((sug = None /\ x = (WSugCreate r, Stop))
       \/ (exists s, sug = Some s /\ (x = (WSugSpec r (s_rv s), Stop) \/
-                                    exists n, x = (WTrialCreate n, Cont) /\ In n (ss_names (s_st s))))).
+                                    exists n, x = (WTrialCreate n, Cont) /\ In n (ss_names (s_st s)))))) \/
+  (exists s, sug = Some s /\ x = restart_write s /\ s_is (s_st s) SSucceeded = true /\ c_resume cf = FromVolume).
 Proof.
   unfold plan_trials. set (c := es_counts st). intros H Hlen Hact Hcomp.
   destruct (c_par cf <? n_pending c + n_running c) eqn:E1; [destruct H as [<-|[]]; now left|].
@@ -260,13 +269,14 @@ Proof.
   set (required := match mx with None => c_par cf | Some m => Z.min (m - completed_count c) (c_par cf) end) in *.
   set (add := Z.max 0 (required - (n_pending c + n_running c))) in *.
   destruct (0 <? add) eqn:E3; [|destruct H]. apply Z.ltb_lt in E3.
-  right. exists (requests_of ts add).
-  assert (Hreq : required <= c_par cf) by (unfold required; destruct mx; lia).
-  assert (Hadd : add = required - (n_pending c + n_running c)) by lia.
-  assert (Hies : 0 <= Z.of_nat (length (filter (fun t => negb (t_obs_available t) && t_is t TEarlyStopped) ts))) by lia.
-  split; [unfold requests_of; lia|]. split.
-  - intros m ->. unfold requests_of, required in *. lia.
-  - split; [intros ->; unfold requests_of; cbn; lia|]. now apply plan_create_shape in H.
+  apply plan_create_shape in H. destruct H as [H|[H|H]]; [| |right; right; exact H].
+  all: right; left; exists (requests_of ts add).
+  all: assert (Hreq : required <= c_par cf) by (unfold required; destruct mx; lia).
+  all: assert (Hadd : add = required - (n_pending c + n_running c)) by lia.
+  all: assert (Hies : 0 <= Z.of_nat (length (filter (fun t => negb (t_obs_available t) && t_is t TEarlyStopped) ts))) by lia.
+  all: (split; [unfold requests_of; lia|]); split.
+  all: try (intros m ->; unfold requests_of, required in *; lia).
+  all: split; [intros ->; unfold requests_of; cbn; lia|]; auto.
 Qed.
 
 Lemma in_status_write e st x : In x (status_write e st) -> x = (WExpStatus st (e_rv e), Stop).
@@ -520,7 +530,7 @@ Proof.
 Qed.
 
 Lemma plan_create_classes cf st ts sug add : es_classes (snd (plan_create cf st ts sug add)) = es_classes st.
-Proof. unfold plan_create. destruct sug as [s|]; [|reflexivity]. destruct (s_is _ _); reflexivity. Qed.
+Proof. unfold plan_create. destruct sug as [s|]; [|reflexivity]. destruct (s_is _ _); [reflexivity|]. destruct (_ && _); reflexivity. Qed.
 
 Lemma plan_trials_classes cf mx st ts sug : es_classes (snd (plan_trials cf mx st ts sug)) = es_classes st.
 Proof.
@@ -581,6 +591,6 @@ Proof.
       * exfalso. assert (H' : In (WExpStatus st rv, onf) (fst (plan_trials (w_cfg w) (e_max e) st2 (c_trials w) (c_sug w)))) by now rewrite PT.
         clear -H'. unfold plan_trials in H'. destruct (_ <? _); [destruct H' as [X|[]]; inversion X|].
         destruct (_ <? _); [|destruct H']. destruct (0 <? _); [|destruct H'].
-        apply plan_create_shape in H' as [(_&X)|(s&_&[X|(n&X&_)])]; inversion X.
+        apply plan_create_shape in H' as [(_&X)|[(s&_&[X|(n&X&_)])|(s&_&X&_)]]; inversion X.
       * apply in_status_write in H. inversion H; subst. rewrite E3, E4. exact S2.
 Qed.
